@@ -33,6 +33,8 @@ type c06Case struct {
 	// transaction then runs inside TLS after a new greeting).
 	Prior     int    `json:"prior,omitempty"`
 	PriorEnds string `json:"prior_ends,omitempty"`
+	// TLS: the connection is under (implicit) TLS from the start
+	TLS bool `json:"tls,omitempty"`
 }
 
 // line patterns for generated content: ordinary lines, dot lines, and the
@@ -96,11 +98,17 @@ func c06Exec(c c06Case, limit int64) (c06Obs, *Verdict) {
 	viaTLS := c.Prior > 0 && c.PriorEnds == "starttls"
 	if viaTLS {
 		cfg.TLS = "starttls"
+	} else if c.TLS {
+		cfg.TLS = "implicit"
 	}
 	script := harness.Script{LMTPSession: c.Mode == 2,
 		DefaultData: &harness.DataPlan{Read: harness.ReadPlan{Sizes: c.Reads, Limit: -1, Retry: 3}, Honest: true}}
 	r := harness.NewRig(cfg, script)
-	w, _ := r.Dial()
+	w, derr := r.Dial()
+	if derr != nil {
+		w.Finish()
+		return c06Obs{}, &Verdict{Inconclusive: "dial: " + derr.Error()}
+	}
 	if e := preamble(w, lmtp, true, 1); e != "" {
 		w.Finish()
 		return c06Obs{}, &Verdict{Inconclusive: e}
@@ -247,6 +255,9 @@ func c06Run(c c06Case) Verdict {
 		c.Len = len(msg)
 	}
 	v := Verdict{}
+	if c.TLS && !(c.Prior > 0 && c.PriorEnds == "starttls") {
+		v.Classes = append(v.Classes, "under_tls")
+	}
 	if c.Prior > 0 {
 		v.Classes = append(v.Classes, "after_earlier_chunked_transaction")
 		if c.PriorEnds == "starttls" {
@@ -617,6 +628,7 @@ func c06Gen(t *rapid.T) c06Case {
 		c.PriorEnds = rapid.SampledFrom([]string{"last", "rset", "starttls"}).Draw(t, "prior_ends")
 	}
 	c.Reads = rapid.SampledFrom([][]int{{1}, {3}, {int(c.N)}, {int(c.N) + 1}, {4096}}).Draw(t, "reads")
+	c.TLS = rapid.IntRange(0, 7).Draw(t, "tls") == 0
 	return c
 }
 
